@@ -226,6 +226,203 @@ _FLIP = {ast.Lt: ast.Gt, ast.Gt: ast.Lt, ast.LtE: ast.GtE, ast.GtE: ast.LtE,
          ast.Eq: ast.Eq, ast.NotEq: ast.NotEq}
 
 
+# names for which tf.math.X / tf.nn.X / tf.linalg.X is the very same object as
+# tf.X (computed once from the installed TensorFlow: `getattr(tf, n) is
+# getattr(tf.math, n)`); the short spelling is the normal form
+_TF_SAME = {
+    'math': {'abs', 'acos', 'acosh', 'add', 'add_n', 'argmax', 'argmin',
+             'asin', 'asinh', 'atan', 'atan2', 'atanh', 'cos', 'cosh',
+             'cumsum', 'divide', 'equal', 'exp', 'floor', 'greater',
+             'greater_equal', 'less', 'less_equal', 'logical_and',
+             'logical_not', 'logical_or', 'maximum', 'minimum', 'multiply',
+             'negative', 'not_equal', 'pow', 'reduce_all', 'reduce_any',
+             'reduce_logsumexp', 'reduce_max', 'reduce_mean', 'reduce_min',
+             'reduce_prod', 'reduce_sum', 'round', 'scalar_mul', 'sigmoid',
+             'sign', 'sin', 'sinh', 'sqrt', 'square', 'subtract', 'tan',
+             'tanh', 'truediv'},
+    'nn': {'sigmoid', 'tanh'},
+    'linalg': {'einsum', 'eye', 'matmul', 'norm', 'tensordot'},
+}
+# tf.math.X that is the same object as tf.nn.X: the tf.nn spelling is kept
+_TF_MATH_IS_NN = {'softmax', 'softplus', 'log_softmax', 'top_k', 'softsign',
+                  'l2_normalize', 'in_top_k'}
+
+
+def _same_text(a, b):
+  return ast.dump(a).replace('Store()', 'Load()') == ast.dump(b).replace(
+      'Store()', 'Load()')
+
+
+class _Spelling(ast.NodeTransformer):
+  """Spellings that denote the same program:
+    tf.math.maximum / tf.nn.sigmoid ...  -> tf.maximum / tf.sigmoid (aliases
+      of one object);
+    isinstance(x, A) or isinstance(x, B) -> isinstance(x, (A, B));
+    x = x - y  <->  x -= y : the augmented form is the normal form, except for
+      `x = x + [..]` / `x += [..]` (list display on the right), where the
+      binary form is (the sequence-kind rule T3 reads concatenations);
+    `if c: ...; return/raise  else: B` -> `if c: ...; return/raise` followed
+      by B (early-return form; an else after a terminated arm is only
+      layout)."""
+
+  @staticmethod
+  def _terminated(body):
+    return bool(body) and isinstance(
+        body[-1], (ast.Return, ast.Raise, ast.Continue, ast.Break))
+
+  def _flatten(self, body):
+    out = []
+    todo = list(body)
+    while todo:
+      s = todo.pop(0)
+      if isinstance(s, ast.If) and s.orelse and self._terminated(s.body):
+        rest = s.orelse
+        s.orelse = []
+        out.append(s)
+        todo = list(rest) + todo
+      else:
+        out.append(s)
+    return out
+
+  def generic_visit(self, n):
+    super().generic_visit(n)
+    for f in ('body', 'orelse', 'finalbody'):
+      b = getattr(n, f, None)
+      if isinstance(b, list) and b and isinstance(b[0], ast.stmt):
+        setattr(n, f, self._flatten(b))
+    return n
+
+  def visit_Attribute(self, n):
+    self.generic_visit(n)
+    v = n.value
+    if isinstance(v, ast.Attribute) and isinstance(v.value, ast.Name) and \
+        v.value.id == 'tf':
+      if n.attr in _TF_SAME.get(v.attr, ()):
+        return ast.copy_location(
+            ast.Attribute(value=v.value, attr=n.attr, ctx=n.ctx), n)
+      if v.attr == 'math' and n.attr in _TF_MATH_IS_NN:
+        v.attr = 'nn'
+    return n
+
+  def visit_BoolOp(self, n):
+    self.generic_visit(n)
+    if isinstance(n.op, ast.Or):
+      out = []
+      for v in n.values:
+        if self._isinst(v) and out and self._isinst(out[-1]) and _same_text(
+            v.args[0], out[-1].args[0]):
+          prev = out[-1]
+          types = self._types(prev) + self._types(v)
+          prev.args[1] = ast.copy_location(
+              ast.Tuple(elts=types, ctx=ast.Load()), prev.args[1])
+        else:
+          out.append(v)
+      if len(out) == 1:
+        return out[0]
+      n.values = out
+    return n
+
+  @staticmethod
+  def _isinst(v):
+    return isinstance(v, ast.Call) and isinstance(v.func, ast.Name) and \
+        v.func.id == 'isinstance' and len(v.args) == 2 and not v.keywords
+
+  @staticmethod
+  def _types(c):
+    t = c.args[1]
+    return list(t.elts) if isinstance(t, ast.Tuple) else [t]
+
+  @staticmethod
+  def _seq_display(e):
+    return isinstance(e, (ast.List, ast.ListComp))
+
+  def visit_Assign(self, n):
+    self.generic_visit(n)
+    if len(n.targets) == 1 and isinstance(
+        n.targets[0], (ast.Name, ast.Subscript, ast.Attribute)) and \
+        isinstance(n.value, ast.BinOp) and _same_text(
+            n.targets[0], n.value.left) and not self._seq_display(
+                n.value.right):
+      return ast.copy_location(
+          ast.AugAssign(target=n.targets[0], op=n.value.op,
+                        value=n.value.right), n)
+    return n
+
+  def visit_AugAssign(self, n):
+    self.generic_visit(n)
+    if isinstance(n.op, ast.Add) and self._seq_display(n.value) and \
+        isinstance(n.target, (ast.Name, ast.Subscript, ast.Attribute)):
+      import copy
+      load = copy.deepcopy(n.target)
+      for x in ast.walk(load):
+        if hasattr(x, 'ctx') and x is load:
+          x.ctx = ast.Load()
+      return ast.copy_location(ast.Assign(
+          targets=[n.target], value=ast.copy_location(ast.BinOp(
+              left=load, op=n.op, right=n.value), n.value)), n)
+    return n
+
+
+def orelse_view(fn_node):
+  """orelse_of(if_node): the else branch of an If in the normal form, where
+  `if c: ...; return` followed by B is the spelling of `if c: ... return
+  else: B`: the real orelse if there is one, otherwise - when the body always
+  leaves (return / raise / continue / break) - the statements that follow the
+  If in its block.  Rules that walk if / elif / else chains use this instead
+  of `.orelse`."""
+  where = {}
+  for n in ast.walk(fn_node):
+    for f in ('body', 'orelse', 'finalbody'):
+      b = getattr(n, f, None)
+      if isinstance(b, list):
+        for i, st in enumerate(b):
+          where[id(st)] = (b, i)
+
+  def orelse_of(n):
+    if n.orelse:
+      return n.orelse
+    if n.body and isinstance(n.body[-1], (ast.Return, ast.Raise, ast.Continue,
+                                          ast.Break)) and id(n) in where:
+      b, i = where[id(n)]
+      return b[i + 1:]
+    return []
+
+  def next_arm(n):
+    """the If that continues the chain after n (elif), or None"""
+    oe = orelse_of(n)
+    if oe and isinstance(oe[0], ast.If) and (len(oe) == 1 or not n.orelse):
+      return oe[0]
+    return None
+
+  def chain(head):
+    """(arms, else_body) of the if / elif chain that starts at head"""
+    arms = [head]
+    while next_arm(arms[-1]) is not None:
+      arms.append(next_arm(arms[-1]))
+    return arms, orelse_of(arms[-1])
+
+  orelse_of.next_arm = next_arm
+  orelse_of.chain = chain
+  return orelse_of
+
+
+def expand_aug(st):
+  """`x op= y` as the equivalent `x = x op y` statement (a synthesised
+  ast.Assign with the position of the original); other statements are
+  returned unchanged.  For rules that tabulate the defining expressions of a
+  name."""
+  if not isinstance(st, ast.AugAssign):
+    return st
+  import copy
+  load = copy.deepcopy(st.target)
+  load.ctx = ast.Load()
+  new = ast.Assign(targets=[st.target], value=ast.copy_location(
+      ast.BinOp(left=load, op=st.op, right=st.value), st), type_comment=None)
+  new = ast.copy_location(new, st)
+  new._aug = st
+  return new
+
+
 def canonicalise(tree):
   """Behaviour-preserving normal form applied to every module before any rule
   reads it, so that no rule depends on the spelling: keyword arguments of a
@@ -295,6 +492,7 @@ def canonicalise(tree):
       return n
 
   tree = _Polarity().visit(tree)
+  tree = _Spelling().visit(tree)
   for n in ast.walk(tree):
     if isinstance(n, ast.Call) and len(n.keywords) > 1 and all(
         k.arg is not None for k in n.keywords):
